@@ -189,8 +189,14 @@ def aslr_off_available():
     return _aslr
 
 
-def launch(cfg, d, repo, textfile=None):
-    """Run one configuration process over shard d; returns the list of operation records."""
+_counter = itertools.count()
+_counter_lock = threading.Lock()
+
+
+def launch(cfg, d, repo, want_texts=False):
+    """Run one configuration process over shard d; returns the list of operation records
+    (with the stage texts under "texts" when want_texts)."""
+    import shutil
     from vf.core import HarnessError, VERIF
     seed, malloc, pad = cfg
     script = expand(d)
@@ -198,23 +204,38 @@ def launch(cfg, d, repo, textfile=None):
     env = {"PATH": "/usr/bin:/bin", "PYTHONHASHSEED": str(seed), "PYTHONDONTWRITEBYTECODE": "1", "PYTHONNOUSERSITE": "1"}
     if malloc == "malloc":
         env["PYTHONMALLOC"] = "malloc"
-    inner = "exec %s%s -P %s" % ("setarch x86_64 -R " if aslr_off_available() else "", PYTHON, WORKER)
-    # fd 3 = side channel with the stage texts; always open so that both kinds of run are the same state
-    inner += ' 3>"$0"' if textfile else " 3>/dev/null"
-    r = subprocess.run(["/bin/sh", "-c", inner, textfile or "sh"], input=json.dumps(spec, sort_keys=True).encode(),
-                       env=env, cwd=VERIF, stdout=subprocess.PIPE, stderr=subprocess.PIPE)
-    recs = []
-    for line in r.stdout.decode().splitlines():
-        try:
-            recs.append(json.loads(line))
-        except ValueError:
-            raise HarnessError("worker wrote a non-JSON line %r (cfg=%r)" % (line[:200], cfg))
-    bad = [x for x in recs if "harness_error" in x]
-    if r.returncode != 0 or not recs or recs[-1].get("done") != len(script) or bad or len(recs) != len(script) + 1:
-        raise HarnessError("worker failed cfg=%r script=%r... rc=%s bad=%r stderr=%s"
-                           % (cfg, script[:2], r.returncode, bad[:1], r.stderr.decode()[-400:]))
-    recs.pop()
-    return recs
+    with _counter_lock:
+        n = next(_counter)
+    tmp = os.path.join(VERIF, "build", "%s.%d.%d" % (ID, os.getpid(), n))
+    os.makedirs(tmp)
+    try:
+        # the spec is a regular file on stdin (a pipe would be read in timing-dependent pieces, which changes the
+        # allocation pattern); fd 3 = side channel with the stage texts, always open, so that a run that keeps the
+        # texts is the same state as one that does not
+        specfile, textfile = os.path.join(tmp, "spec.json"), os.path.join(tmp, "texts.jsonl")
+        with open(specfile, "w") as f:
+            json.dump(spec, f, sort_keys=True)
+        inner = "exec %s%s -P %s" % ("setarch x86_64 -R " if aslr_off_available() else "", PYTHON, WORKER)
+        inner += ' <"$0" 3>"$1"'
+        r = subprocess.run(["/bin/sh", "-c", inner, specfile, textfile if want_texts else "/dev/null"], stdin=subprocess.DEVNULL,
+                           env=env, cwd=VERIF, stdout=subprocess.PIPE, stderr=subprocess.PIPE)
+        recs = []
+        for line in r.stdout.decode().splitlines():
+            try:
+                recs.append(json.loads(line))
+            except ValueError:
+                raise HarnessError("worker wrote a non-JSON line %r (cfg=%r)" % (line[:200], cfg))
+        bad = [x for x in recs if "harness_error" in x]
+        if r.returncode != 0 or not recs or recs[-1].get("done") != len(script) or bad or len(recs) != len(script) + 1:
+            raise HarnessError("worker failed cfg=%r script=%r... rc=%s bad=%r stderr=%s"
+                               % (cfg, script[:2], r.returncode, bad[:1], r.stderr.decode()[-400:]))
+        recs.pop()
+        if want_texts:
+            for rec, line in zip(recs, open(textfile)):
+                rec["texts"] = json.loads(line)["texts"]
+        return recs
+    finally:
+        shutil.rmtree(tmp, ignore_errors=True)
 
 
 # ------------------------------------------------------------------ comparison
@@ -249,7 +270,7 @@ def compare(ref, got):
 
 
 def strip(rec):
-    return {k: v for k, v in rec.items() if k != "cpu"}
+    return {k: v for k, v in rec.items() if k not in ("cpu", "texts")}
 
 
 # ------------------------------------------------------------------ run
@@ -376,24 +397,21 @@ def side(cfg, ops, j=None):
 
 
 def run_pair(w, repo):
-    """Run the reference side and the diverging side of a witness with the text side channel.
-    -> (violated, detail, operations executed, last record of the diverging side)"""
-    from vf.core import scratch
+    """Run the reference side and the diverging side of a witness, keeping the stage texts.
+    -> (violated, detail, operations executed, record of the diverging side)"""
     out = {}
-    with scratch("%s.t%d" % (ID, threading.get_ident())) as d:
-        for name in ("ref", "got"):
-            s = w[name]
-            tf = os.path.join(d, name + ".jsonl")
-            recs = launch(tuple(s["cfg"]), word_shard(s["ops"]), repo, textfile=tf)
-            texts = [json.loads(line) for line in open(tf)][s["j"]]["texts"]
-            out[name] = (recs[s["j"]], texts, len(recs))
-    ref, got = out["ref"][0], out["got"][0]
-    nops = out["ref"][2] + out["got"][2]
+    nops = 0
+    for name in ("ref", "got"):
+        s = w[name]
+        recs = launch(tuple(s["cfg"]), word_shard(s["ops"]), repo, want_texts=True)
+        out[name] = recs[s["j"]]
+        nops += len(recs)
+    ref, got = out["ref"], out["got"]
     stage = compare(ref, got)
     if stage is None:
         return False, "both give %s" % describe(got), nops, got
     detail = "%s vs %s; first diverging stage %s" % (describe(got), describe(ref), stage)
-    for x, y in zip(out["ref"][1], out["got"][1]):
+    for x, y in zip(ref["texts"], got["texts"]):
         if x[2] != y[2]:
             detail += "%s, %s" % (" of '%s'" % x[1] if x[1] else "", first_text_diff(x[2], y[2]))
             break
